@@ -417,6 +417,10 @@ def run(ctx):
             spec["precompute"] = True
         spec["dt"] = float(rng.choice([1.0, 2.0, 4.0]))
         spec["p0"] = list(rng.normal(size=spec["n"]) * 8.0 + 3.0)
+        # smooth, well separated surfaces (the hop runs above use gap = 0: near-degenerate random models, whose adiabatic surfaces
+        # have features far narrower than any of the time steps tried - clean-tree sweep, seed 402: no convergence down to dt/16)
+        spec["gap"] = 0.04
+        spec["scale"] = 0.03
         ok, obs, req, text = oracle_drift(spec)
         ctx.case(("drift", spec["N"], spec["n"]))
         ctx.count("drift_runs")
